@@ -155,4 +155,36 @@ example : processBulk (fun i => i != 3) true
 example : processBulk (fun _ => true) false [⟨.create, true⟩, ⟨.unknown, true⟩, ⟨.revert, true⟩]
     = ⟨[.ok .create, .err], [0], true⟩ := by decide
 
+/-! #### the continue-on-failure flag as spelled on the wire
+
+`bulkHandler` reads `?continueOnFailure=` with `sharedapi.QueryParamBool` (`contFlag`).  The property says nothing after
+the first failing element is executed *unless continue-on-failure is requested*: every spelling that does not request it
+must stop the bulk. -/
+
+/-- the flag is requested by exactly the spellings that lower-case to `1` or `true` -/
+theorem cont_flag_iff (v : Option String) :
+    contFlag v = true ↔ ∃ s, v = some s ∧ (s.toLower = "1" ∨ s.toLower = "true") := by
+  cases v with
+  | none => simp [contFlag]
+  | some s => simp [contFlag]
+
+/-- **stop, whatever the client wrote**: when the spelled flag does not request continue-on-failure (absent, empty, bare,
+`false`, `0`, `no`, `False`, …), nothing after the first failing element is processed or executed. -/
+theorem bulk_stops_unless_requested (raw : Option String) (hraw : contFlag raw = false)
+    (ok : Nat → Bool) (es : List Elem) (k : Nat) (e : Elem)
+    (hk : es[k]? = some e) (hf : fails ok k e = true)
+    (hfirst : ∀ j e', j < k → es[j]? = some e' → fails ok j e' = false) :
+    processed ok (contFlag raw) 0 es = k + 1 ∧ ∀ c ∈ (processBulk ok (contFlag raw) es).calls, c ≤ k := by
+  rw [hraw]
+  exact bulk_stops ok es k e hk hf hfirst
+
+/-- the "off" spellings clients actually send do not request it … -/
+example : ["false", "FALSE", "False", "0", "no", "NO", "off", "", "f", "null", "01", " true", "true "].all
+    (fun s => contFlag (some s) == false) = true := by decide +kernel
+/-- … an absent parameter does not … -/
+example : contFlag none = false := by decide
+/-- … and these do (`yes` / `on` do not: `QueryParamBool` knows `1` and `true` only) -/
+example : ["true", "TRUE", "True", "tRuE", "1"].all (fun s => contFlag (some s)) = true := by decide +kernel
+example : ["yes", "on", "t"].all (fun s => contFlag (some s) == false) = true := by decide +kernel
+
 end C18
